@@ -695,14 +695,26 @@ def sqrt(x):
 def smin(a, b):
     a, b = SReal.of(a), SReal.of(b)
     if ITE_MODE[0] and not a.is_special and not b.is_special and (a.is_symbolic or b.is_symbolic):
-        return SReal.sym(z3.If(a.z() <= b.z(), a.z(), b.z()))
+        c = a <= b
+        if isinstance(c, bool):
+            return a if c else b
+        k = CTX.known(c.e)
+        if k is not None:
+            return a if k else b
+        return sym_from_z3(z3.If(c.e, a.z(), b.z()))
     return a if (a <= b) else b
 
 
 def smax(a, b):
     a, b = SReal.of(a), SReal.of(b)
     if ITE_MODE[0] and not a.is_special and not b.is_special and (a.is_symbolic or b.is_symbolic):
-        return SReal.sym(z3.If(a.z() >= b.z(), a.z(), b.z()))
+        c = a >= b
+        if isinstance(c, bool):
+            return a if c else b
+        k = CTX.known(c.e)
+        if k is not None:
+            return a if k else b
+        return sym_from_z3(z3.If(c.e, a.z(), b.z()))
     return a if (a >= b) else b
 
 
